@@ -12,6 +12,13 @@ import (
 	"github.com/relab/hotstuff/security/crypto"
 )
 
+// The first byte of a cache key says which kind of verification the entry remembers: a signature that is valid
+// for a batch of per-signer messages says nothing about a single message that merely serializes like that batch.
+const (
+	keyVerify      = 'V'
+	keyBatchVerify = 'B'
+)
+
 type Cache struct {
 	impl        crypto.Base
 	mut         sync.Mutex
@@ -59,6 +66,7 @@ func (cache *Cache) Sign(message []byte) (sig hotstuff.QuorumSignature, err erro
 		return nil, err
 	}
 	var key strings.Builder
+	_ = key.WriteByte(keyVerify)
 	hash := sha256.Sum256(message)
 	_, _ = key.Write(hash[:])
 	writeSigners(&key, sig)
@@ -70,6 +78,7 @@ func (cache *Cache) Sign(message []byte) (sig hotstuff.QuorumSignature, err erro
 // Verify verifies the given quorum signature against the message.
 func (cache *Cache) Verify(signature hotstuff.QuorumSignature, message []byte) error {
 	var key strings.Builder
+	_ = key.WriteByte(keyVerify)
 	hash := sha256.Sum256(message)
 	_, _ = key.Write(hash[:])
 	writeSigners(&key, signature)
@@ -103,6 +112,7 @@ func (cache *Cache) BatchVerify(signature hotstuff.QuorumSignature, batch map[ho
 	hasher.Sum(hash[:0])
 
 	var key strings.Builder
+	_ = key.WriteByte(keyBatchVerify)
 	_, _ = key.Write(hash[:])
 	writeSigners(&key, signature)
 	_, _ = key.Write(signature.ToBytes())
